@@ -117,11 +117,12 @@ func (d *tDecoder) Decode(b []byte, base unsafe.Pointer, sd *structDesc, maxdept
 		p := unsafe.Add(base, f.Offset) // pointer to the field
 
 		t := f.Type
+		if t.FixedSize > 0 && len(b)-i < t.FixedSize {
+			// before mallocIfPointer: an optional scalar must not be left pointing at uninitialised memory
+			return i, io.ErrShortBuffer
+		}
 		p = d.mallocIfPointer(t, p)
 		if t.FixedSize > 0 {
-			if len(b)-i < t.FixedSize {
-				return i, io.ErrShortBuffer
-			}
 			i += decodeFixedSizeTypes(t.T, b[i:], p)
 		} else {
 			var n int
